@@ -50,11 +50,15 @@ def csLookup (name : String) : Option CS :=
 /-- `next(iter(self.csmap.values()))`. -/
 def csDefault : CS := (PREDEFINED_COLORSPACE.head?).getD ("DeviceGray", 1)
 
+/-- What `q` saves: `(ctm, textstate.copy(), graphicstate.copy())`; the colour spaces live in the
+graphics state. -/
 structure Saved where
   ctm : Matrix
   ts : TextState
   scolor : Option Color
   ncolor : Option Color
+  scs : CS
+  ncs : CS
   deriving Repr, DecidableEq, Inhabited
 
 /-- Interpreter + device state. -/
@@ -67,7 +71,6 @@ structure MState where
   scs : CS
   ncs : CS
   gstack : List Saved
-  csstack : List (CS × CS)
   argstack : List Obj
   res : Res
   fuelOk : Bool
@@ -76,7 +79,7 @@ structure MState where
 /-- `init_resources` + `init_state(ctm)`. -/
 def MState.init (ctm : Matrix) (res : Res) : MState :=
   { ctm := ctm, dctm := ctm, ts := TextState.init, scolor := none, ncolor := none,
-    scs := csDefault, ncs := csDefault, gstack := [], csstack := [], argstack := [], res := res,
+    scs := csDefault, ncs := csDefault, gstack := [], argstack := [], res := res,
     fuelOk := true }
 
 /-! ### casting.py -/
@@ -107,20 +110,44 @@ def fontOf (env : Env) : FontSel → Option Font
   | .idx i => some ((env.fonts[i]?).getD Font.fallback)
   | .fallback => some Font.fallback
 
-/-- `PDFFont.char_width`. -/
-def charWidth (f : Font) (cid : Nat) : Rat := char_width_scaled (f.width cid) font_hscale
+/-- `font.hscale`: the constant of `PDFFont.__init__`, overwritten by `PDFType3Font.__init__`. -/
+def fontHScale (f : Font) : Rat :=
+  match f.fm with
+  | none => font_hscale
+  | some m => type3_hscale m
 
-/-- `LTChar.__init__` for a horizontal font; `matrix` is what `render_char` receives. -/
+def fontVScale (f : Font) : Rat :=
+  match f.fm with
+  | none => font_vscale
+  | some m => type3_vscale m
+
+/-- `PDFFont.char_width`. -/
+def charWidth (f : Font) (cid : Nat) : Rat := char_width_scaled (f.width cid) (fontHScale f)
+
+/-- `vx` of `LTChar.__init__` (vertical writing): half the font size when the font gives none. -/
+def ltcharVx (f : Font) (fontsize : Rat) (cid : Nat) : Rat :=
+  match (f.disp cid).1 with
+  | none => ltchar_vx_default fontsize
+  | some vx => ltchar_vx vx fontsize
+
+/-- `LTChar.__init__`; `matrix` is what `render_char` receives. -/
 def ltchar (matrix : Matrix) (f : Font) (fontsize scaling rise : Rat) (cid : Nat) (ncolor : Option Color) : Glyph :=
-  let adv := ltchar_adv (charWidth f cid) fontsize scaling
-  let descent := ltchar_descent (font_get_descent f.descent font_vscale) fontsize
-  let bbox := ltchar_bbox_h descent rise adv fontsize
+  let adv := if f.vertical then ltchar_adv_v (charWidth f cid) fontsize else ltchar_adv (charWidth f cid) fontsize scaling
+  let bbox :=
+    if f.vertical then
+      let vx := ltcharVx f fontsize cid
+      let vy := ltchar_vy (f.disp cid).2 fontsize
+      ltchar_bbox_v vx vy rise adv fontsize
+    else
+      let descent := ltchar_descent (font_get_descent f.descent (fontVScale f)) fontsize
+      ltchar_bbox_h descent rise adv fontsize
   let (x0, y0, x1, y1) := apply_matrix_rect matrix bbox
   let (x0, x1) := if x1 < x0 then (x1, x0) else (x0, x1)
   let (y0, y1) := if y1 < y0 then (y1, y0) else (y0, y1)
-  { m := matrix, adv := adv, bbox := (x0, y0, x1, y1), size := y1 - y0, font := f.name, col := ncolor }
+  { m := matrix, adv := adv, bbox := (x0, y0, x1, y1), size := if f.vertical then x1 - x0 else y1 - y0,
+    font := f.name, col := ncolor }
 
-/-! ### `PDFTextDevice.render_string_horizontal` -/
+/-! ### `PDFTextDevice.render_string_horizontal` / `render_string_vertical` -/
 
 /-- The inner `for cid in font.decode(obj)` loop; returns the new `x` and the glyphs. -/
 def renderCodes (f : Font) (matrix : Matrix) (fontsize scaling charspace wordspace rise : Rat)
@@ -140,24 +167,53 @@ def renderSeq (f : Font) (matrix : Matrix) (fontsize scaling charspace wordspace
   | x, [] => (x, [])
   | x, .num n :: rest =>
     renderSeq f matrix fontsize scaling charspace wordspace rise dxscale ncolor y (x - n * dxscale) rest
-  | x, .str codes :: rest =>
-    let (x1, g1) := renderCodes f matrix fontsize scaling charspace wordspace rise ncolor y x codes
+  | x, .str bytes :: rest =>
+    let (x1, g1) := renderCodes f matrix fontsize scaling charspace wordspace rise ncolor y x (f.decode bytes)
     let (x2, g2) := renderSeq f matrix fontsize scaling charspace wordspace rise dxscale ncolor y x1 rest
     (x2, g1 ++ g2)
   | x, .other :: rest =>
     renderSeq f matrix fontsize scaling charspace wordspace rise dxscale ncolor y x rest
 
-/-- `PDFTextDevice.render_string` (simple horizontal font). -/
+/-- `render_string_vertical`: the same loops advancing `y`. -/
+def renderCodesV (f : Font) (matrix : Matrix) (fontsize scaling charspace wordspace rise : Rat)
+    (ncolor : Option Color) (x : Rat) : Rat → List Nat → Rat × List Glyph
+  | y, [] => (y, [])
+  | y, cid :: rest =>
+    let g := ltchar (translate_matrix matrix (x, y)) f fontsize scaling rise cid ncolor
+    let y := y + g.adv
+    let y := y + charspace
+    let y := if cid = 32 ∧ wordspace ≠ 0 then y + wordspace else y
+    let (y', gs) := renderCodesV f matrix fontsize scaling charspace wordspace rise ncolor x y rest
+    (y', g :: gs)
+
+def renderSeqV (f : Font) (matrix : Matrix) (fontsize scaling charspace wordspace rise dxscale : Rat)
+    (ncolor : Option Color) (x : Rat) : Rat → List Elem → Rat × List Glyph
+  | y, [] => (y, [])
+  | y, .num n :: rest =>
+    renderSeqV f matrix fontsize scaling charspace wordspace rise dxscale ncolor x (y - n * dxscale) rest
+  | y, .str bytes :: rest =>
+    let (y1, g1) := renderCodesV f matrix fontsize scaling charspace wordspace rise ncolor x y (f.decode bytes)
+    let (y2, g2) := renderSeqV f matrix fontsize scaling charspace wordspace rise dxscale ncolor x y1 rest
+    (y2, g1 ++ g2)
+  | y, .other :: rest =>
+    renderSeqV f matrix fontsize scaling charspace wordspace rise dxscale ncolor x y rest
+
+/-- `PDFTextDevice.render_string`. -/
 def renderString (f : Font) (dctm : Matrix) (ts : TextState) (ncolor : Option Color) (seq : List Elem) :
     TextState × List Glyph :=
   let matrix := mult_matrix ts.matrix dctm
   let scaling := rs_scaling ts.scaling
   let charspace := rs_charspace ts.charspace scaling
-  let wordspace := rs_wordspace ts.wordspace scaling
+  let wordspace := if f.multibyte then 0 else rs_wordspace ts.wordspace scaling
   let dxscale := rs_dxscale ts.fontsize scaling
   let (x, y) := ts.linematrix
-  let (x', gs) := renderSeq f matrix ts.fontsize scaling charspace wordspace ts.rise dxscale ncolor y x seq
-  ({ ts with linematrix := (x', y) }, gs)
+  if f.vertical then
+    let (y', gs) := renderSeqV f matrix ts.fontsize scaling (rs_charspace_v ts.charspace scaling) wordspace ts.rise
+      (rs_dxscale_v ts.fontsize scaling) ncolor x y seq
+    ({ ts with linematrix := (x, y') }, gs)
+  else
+    let (x', gs) := renderSeq f matrix ts.fontsize scaling charspace wordspace ts.rise dxscale ncolor y x seq
+    ({ ts with linematrix := (x', y) }, gs)
 
 /-! ### the `do_*` methods -/
 
@@ -199,21 +255,18 @@ def doSetColor (st : MState) (stroke : Bool) : MState :=
   else st
 
 /-- Body of a `do_*` method applied to exactly `arity` operands.
-`runForm` executes a form XObject (`interpreter.render_contents`) and returns its glyphs and whether
-the nesting budget sufficed. -/
-def call (env : Env) (runForm : Form → Matrix → Res → List Glyph × Bool) (st : MState) :
+`runForm` executes a form XObject (`interpreter.render_contents`) from the given initial state of
+the form's interpreter and returns its glyphs and whether the nesting budget sufficed. -/
+def call (env : Env) (runForm : Form → MState → List Glyph × Bool) (st : MState) :
     Op → List Obj → MState × List Glyph
   | .q, [] =>
-    ({ st with gstack := ⟨st.ctm, st.ts, st.scolor, st.ncolor⟩ :: st.gstack,
-               csstack := (st.scs, st.ncs) :: st.csstack }, [])
+    ({ st with gstack := ⟨st.ctm, st.ts, st.scolor, st.ncolor, st.scs, st.ncs⟩ :: st.gstack }, [])
   | .Q, [] =>
     match st.gstack with
     | [] => (st, [])
     | s :: rest =>
-      let st := { st with ctm := s.ctm, dctm := s.ctm, ts := s.ts, scolor := s.scolor, ncolor := s.ncolor, gstack := rest }
-      match st.csstack with
-      | [] => (st, [])
-      | (scs, ncs) :: crest => ({ st with scs := scs, ncs := ncs, csstack := crest }, [])
+      ({ st with ctm := s.ctm, dctm := s.ctm, ts := s.ts, scolor := s.scolor, ncolor := s.ncolor,
+                 scs := s.scs, ncs := s.ncs, gstack := rest }, [])
   | .cm, [a, b, c, d, e, f] =>
     match safeFloats [a, b, c, d, e, f] with
     | some [a, b, c, d, e, f] =>
@@ -343,7 +396,10 @@ def call (env : Env) (runForm : Form → Matrix → Res → List Glyph × Bool) 
         | some fm =>
           let matrix := fm.matrix.getD MATRIX_IDENTITY
           let res := fm.res.getD st.res
-          let (gs, ok) := runForm fm (mult_matrix matrix st.ctm) res
+          -- `init_resources` + `init_state(Matrix × ctm)`, then the caller's text and graphics state
+          let st0 : MState := { MState.init (mult_matrix matrix st.ctm) res with
+            ts := st.ts, scolor := st.scolor, ncolor := st.ncolor, scs := st.scs, ncs := st.ncs }
+          let (gs, ok) := runForm fm st0
           -- the sub-interpreter shares the device: `init_state` set the device CTM to the form's,
           -- `do_Do` gives the caller's back after `end_figure`
           ({ st with dctm := st.ctm, fuelOk := st.fuelOk && ok }, gs)
@@ -355,7 +411,7 @@ def call (env : Env) (runForm : Form → Matrix → Res → List Glyph × Bool) 
 def arity (o : Op) : Option Nat := lookup o.method arityTable
 
 /-- One iteration of the loop in `PDFPageInterpreter.execute`. -/
-def execTok (env : Env) (runForm : Form → Matrix → Res → List Glyph × Bool) (st : MState) :
+def execTok (env : Env) (runForm : Form → MState → List Glyph × Bool) (st : MState) :
     Tok → MState × List Glyph
   | .opnd .null => (st, [])   -- `null` reaches `execute` as an unknown keyword, not as an operand
   | .opnd o => ({ st with argstack := st.argstack ++ [o] }, [])
@@ -368,7 +424,7 @@ def execTok (env : Env) (runForm : Form → Matrix → Res → List Glyph × Boo
       let st := { st with argstack := rest }
       if args.length = n then call env runForm st o args else (st, [])
 
-def execToks (env : Env) (runForm : Form → Matrix → Res → List Glyph × Bool) :
+def execToks (env : Env) (runForm : Form → MState → List Glyph × Bool) :
     MState → List Tok → MState × List Glyph
   | st, [] => (st, [])
   | st, t :: rest =>
@@ -377,7 +433,7 @@ def execToks (env : Env) (runForm : Form → Matrix → Res → List Glyph × Bo
     (st2, g1 ++ g2)
 
 /-- `PDFContentParser` over several streams feeding `execute`: nothing is reset at a stream boundary. -/
-def execStreams (env : Env) (runForm : Form → Matrix → Res → List Glyph × Bool) :
+def execStreams (env : Env) (runForm : Form → MState → List Glyph × Bool) :
     MState → List (List Tok) → MState × List Glyph
   | st, [] => (st, [])
   | st, s :: rest =>
@@ -385,11 +441,12 @@ def execStreams (env : Env) (runForm : Form → Matrix → Res → List Glyph ×
     let (st2, g2) := execStreams env runForm st1 rest
     (st2, g1 ++ g2)
 
-/-- `render_contents` of a form body with a nesting budget (`fuel` levels of `Do` below this one). -/
-def runForm (env : Env) : Nat → Form → Matrix → Res → List Glyph × Bool
-  | 0, _, _, _ => ([], false)
-  | fuel + 1, fm, ctm, res =>
-    let (st, gs) := execToks env (runForm env fuel) (MState.init ctm res) fm.body
+/-- `execute` of a form body from the initial state `do_Do` prepared, with a nesting budget
+(`fuel` levels of `Do` below this one). -/
+def runForm (env : Env) : Nat → Form → MState → List Glyph × Bool
+  | 0, _, _ => ([], false)
+  | fuel + 1, fm, st0 =>
+    let (st, gs) := execToks env (runForm env fuel) st0 fm.body
     (gs, st.fuelOk)
 
 /-- `process_page` after the CTM has been chosen: `render_contents(page.resources, page.contents, ctm)`. -/
